@@ -153,6 +153,13 @@ IPv4-only socket cannot send to an IPv6 target: the defect repaired in `1be5866`
 theorem relay_socket_family (f : UdpRelay.Family) : UdpRelay.bindFamily Gen.udpBind f = f := by
   cases f <;> rfl
 
+/-- Obligation on the code: a datagram that meets a closed port (the target is not up yet, or restarts) does not end
+the association — the relay's socket stays unconnected, so the ICMP answer never surfaces as an error of a later call
+(both loops treat every socket error as fatal). -/
+theorem association_survives_unreachable : UdpRelay.survivesUnreachable Gen.udpConnected = true := by decide
+
+theorem connected_socket_refuted : UdpRelay.survivesUnreachable true = false := by decide
+
 theorem ipv4_only_bind_refuted : UdpRelay.bindFamily .anyV4 .v6 ≠ .v6 := by decide
 
 open UdpRelay in
